@@ -39,6 +39,9 @@ class Spec:
     assumptions = []
     # lean modules with the tie theorems `translated source = model` for the code this property is about
     src_ties = []
+    # lean modules proving `overflow-checked copy of the translated source = model` on the property's domain
+    # (reported; a failure widens nothing: the correspondence runs the real machine integers anyway)
+    src_overflow = []
 
     def streams(self, tier, rng):
         return []
